@@ -184,11 +184,27 @@ pub fn dispatch(name: &str, args: &[&str]) -> Option<String> {
             let all = hs.get_all(name.as_str()).iter().map(|v| hex(v.as_bytes())).collect::<Vec<_>>().join(",");
             let mut hs2 = hs.clone();
             hs2.remove(name.as_str());
-            Some(format!("first={} all=[{}] rest={}", first, all, crate::http::show_headers(&hs2)))
+            // get_mut edits the first header of that name in place
+            let mut hs3 = hs.clone();
+            if let Some(v) = hs3.get_mut(name.as_str()) {
+                v.push('!');
+            }
+            Some(format!(
+                "first={} all=[{}] rest={} len={} empty={} mut={}",
+                first,
+                all,
+                crate::http::show_headers(&hs2),
+                hs.len(),
+                hs.is_empty() as u8,
+                crate::http::show_headers(&hs3)
+            ))
         }
         "cookies" => {
             let mut hs = Headers::new();
-            hs.add("Cookie", unhex_str(args[0]));
+            // "-" = a request without any Cookie header
+            if args[0] != "-" {
+                hs.add("Cookie", unhex_str(args[0]));
+            }
             let r = Request {
                 method: humphrey::http::method::Method::Get,
                 uri: "/".into(),
